@@ -388,8 +388,19 @@ func TestVerifC05(t *testing.T) {
 		if si != r.Shard {
 			continue
 		}
+		if !verifkit.Thorough() && sc.Scn != "pairing" && sc.Scn != "pcr" {
+			// two workers are between a shared load and store at the same time only after two deviations
+			// (the feeder hands out the next batch, the other worker takes it): one bound-2 job per scenario
+			p := sc
+			p.Workers, p.Batch, p.Policy = 2, 3, 0
+			jobs = append(jobs, job{p, 2, 0, 25000})
+		}
+		heavy := sc.Scn == "pairing" || sc.Scn == "pcr" // long executions (alignment / C matcher under instrumentation)
 		for _, w := range ws {
 			for _, b := range bs {
+				if heavy && !verifkit.Thorough() && b != 3 {
+					continue
+				}
 				p := sc
 				p.Workers, p.Batch = w, b
 				for pol := 0; pol <= 1; pol++ {
